@@ -45,6 +45,20 @@ fn main() {
         let h: Vec<usize> = args[2].split(',').filter_map(|x| x.parse().ok()).collect();
         std::process::exit(checks::c13::first_child(&h));
     }
+    if id == "probe" {
+        // jpv probe <expression> [<document json>]: implementation and reference side by side
+        let doc: serde_json::Value = args.get(3).map(|d| serde_json::from_str(d).expect("document json")).unwrap_or(serde_json::Value::Null);
+        println!("impl: {}", implx::impl_search(&args[2], &doc).brief());
+        match rparse::parse(&args[2]) {
+            Ok(p) => println!("ref : {}  tree {}", oracle::ref_brief(&reval::Eval::builtin().search(&p.tree, &doc)), rparse::sexp(&p.tree)),
+            Err(e) => println!("ref : not a sentence ({:?})", e),
+        }
+        match jmespath::parse(&args[2]) {
+            Ok(a) => println!("ast : {}", implx::ast_sexp(&a)),
+            Err(e) => println!("ast : {:?}", e.reason),
+        }
+        return;
+    }
     if id == "C05-one" {
         let mut st = engine::Stats::default();
         checks::c05::total(&args[2], "one", &mut st);
